@@ -183,7 +183,14 @@ pub(crate) fn parse_timestamp(is: &mut Stream<'_>) -> ModalResult<jiff::Zoned> {
     ))
     .parse_next(is)?;
 
-    Ok(ts)
+    // jiff 0.2.5 builds an instant with a mixed-sign (second, nanosecond) pair when the civil
+    // time and the instant are on different sides of the epoch and there is a fraction, and
+    // compares such pairs wrongly: re-create the instant from its nanosecond value
+    let instant = match jiff::Timestamp::from_nanosecond(ts.timestamp().as_nanosecond()) {
+        Ok(instant) => instant,
+        Err(err) => return Err(from_error(is, &err)),
+    };
+    Ok(instant.to_zoned(ts.time_zone().clone()))
 }
 
 #[cfg(test)]
